@@ -256,4 +256,17 @@ example : EnvRel exPub (exEnv [0x61, 0x62]) (exEnv [0x7A]) ∧ ArgsOk exPub exAr
   · intro v hv; simp [exArgs] at hv; rcases hv with rfl | rfl <;> simp [ValOk]
   · intro v hv; simp [exArgs] at hv; rcases hv with rfl | rfl <;> simp [SecV, AllPubV, exPub]
 
+/-- Known finding D12 as a theorem about the model: left padding in front of an unsafe value that
+starts with a line feed is an envelope of its own. `%6s` of the short value `"\nab"` renders as
+three spaces, a line feed, `ab`; of the long value `"\nabcdef"` as itself. Same line-feed positions
+in the values, different redacted outputs — the renderings are not shape-equal (the first has a
+non-empty segment before the line feed), which is the hypothesis the two-run theorems need. -/
+theorem pad_before_leading_lf_shows :
+    redact (Buffer.init.run [.write [0x20, 0x20, 0x20, 0x0A, 0x61, 0x62]]).redactableBytes
+      = startB ++ crossB ++ endB ++ [0x0A] ++ startB ++ crossB ++ endB ∧
+    redact (Buffer.init.run [.write [0x0A, 0x61, 0x62, 0x63, 0x64, 0x65, 0x66]]).redactableBytes
+      = [0x0A] ++ startB ++ crossB ++ endB ∧
+    canonB [0x20, 0x20, 0x20, 0x0A, 0x61, 0x62] ≠ canonB [0x0A, 0x61, 0x62, 0x63, 0x64, 0x65, 0x66] := by
+  refine ⟨by decide, by decide, by decide⟩
+
 end Redact
